@@ -158,10 +158,15 @@ mutant("c19-livelock-mutual-spin", "C19", r"no-progress-within-step-cap",
          "                attrs.resolve_types(value, types_map, {})\n        while _spinners:\n            pass\n        _resolved_forward_references = True"),
        ], ["--runs", "200"])
 mutant("c19-spin-wait-is-not-a-livelock", "C19", r"^$",
+       # negative control: a busy wait that is CORRECT — it ends when the resolver finishes or gives up
+       # (the in-progress mark is taken inside the try and dropped in its finally), after which the waiter
+       # resolves for itself if need be.  It spins for thousands of steps; that is not a livelock.
        [("packages/python/lsprotocol/_hooks.py", "# Flag to ensure we only resolve forward references once.\n_resolved_forward_references = False\n",
          "# Flag to ensure we only resolve forward references once.\n_resolved_forward_references = False\n_resolving = False\n"),
         ("packages/python/lsprotocol/_hooks.py", "    global _resolved_forward_references\n    if not _resolved_forward_references:\n",
-         "    global _resolved_forward_references, _resolving\n    if not _resolved_forward_references:\n        if _resolving:\n            while not _resolved_forward_references:\n                pass\n            return\n        _resolving = True\n"),
+         "    global _resolved_forward_references, _resolving\n    if not _resolved_forward_references:\n        while _resolving and not _resolved_forward_references:\n            pass\n        if _resolved_forward_references:\n            return\n"),
+        ("packages/python/lsprotocol/_hooks.py", "        for _, value in items:\n            if isinstance(value, type):\n                attrs.resolve_types(value, types_map, {})\n        _resolved_forward_references = True\n",
+         "        try:\n            _resolving = True\n            for _, value in items:\n                if isinstance(value, type):\n                    attrs.resolve_types(value, types_map, {})\n            _resolved_forward_references = True\n        finally:\n            _resolving = False\n"),
        ], ["--runs", "150"])
 
 
